@@ -5,19 +5,26 @@ import json, glob, os, re, subprocess, sys, time
 def sh(cmd, cwd=None, timeout=3600):
     p = subprocess.run(cmd, shell=True, cwd=cwd, capture_output=True, text=True, timeout=timeout)
     return p.returncode, p.stdout + p.stderr
-only = sys.argv[1:]
+ALL = "--all" in sys.argv
+only = [a for a in sys.argv[1:] if a != "--all"]
 for f in sorted(glob.glob("/verif/seeded/*/meta.json")):
     d = os.path.dirname(f)
     name = os.path.basename(d)
     if only and not any(o in name for o in only):
         continue
     m = json.load(open(f))
-    checks = list(dict.fromkeys([m["property"]] + list(m.get("checks_quick", {}).keys())))
+    # the owning check, every check that has ever caught the change, and (only with --all) the ones that were silent
+    prev = m.get("checks_quick", {})
+    ever = set(m.get("ever_caught_by", [])) | {c for c, r in prev.items() if r.get("exit") == 1}
+    checks = list(dict.fromkeys([m["property"]] + [c for c in prev if c in ever or ALL]))
     results = {}
     for c in checks:
         assert sh("git -C /repo status --porcelain")[1].strip() == "", "repo dirty"
         rc, out = sh(f"git -C /repo apply {d}/patch.diff")
-        assert rc == 0, out
+        if rc != 0:
+            print(f"{name} {c}: PATCH DOES NOT APPLY: {out.strip()[:200]}", flush=True)
+            results[c] = dict(prev.get(c, {}), not_rerun=True, patch_does_not_apply=True)
+            continue
         try:
             t0 = time.time()
             rc, out = sh(f"./check {c} quick", cwd="/verif")
@@ -27,6 +34,13 @@ for f in sorted(glob.glob("/verif/seeded/*/meta.json")):
         first = next((l.strip()[:300] for l in out.splitlines() if l.startswith("  failure")), "")
         results[c] = {"exit": rc, "violation_lines": len(re.findall(r"^VIOLATION", out, re.M)), "failure_classes": sigs, "first_failure": first, "seconds": round(time.time() - t0)}
         print(f"{name} {c}: exit={rc} {sigs}", flush=True)
+    # keep the record of checks that were not re-run this time
+    for c, r in prev.items():
+        if c not in results:
+            r = dict(r)
+            r["not_rerun"] = True
+            results[c] = r
+    m["ever_caught_by"] = sorted(ever | {c for c, r in results.items() if r.get("exit") == 1})
     m["checks_quick"] = results
     m["caught_by"] = [c for c, r in results.items() if r["exit"] == 1]
     m["rechecked_at_verif_commit"] = subprocess.run("git -C /verif rev-parse --short HEAD", shell=True, capture_output=True, text=True).stdout.strip()
